@@ -40,6 +40,7 @@ def cases(tier, seed):
 _log = probes.EventLog()
 _log.enabled = False
 _calls = {}
+traced_calls = [0]
 
 
 def setup(ctx):
@@ -74,13 +75,18 @@ def make_inner(rng, D, in_sig, out_sig, record, claims_equivariant=False):
         equivariant: bool = eqx.field(static=True, default=False)
 
         def __call__(self, x, aux_data=None):
-            record.append({t: np.asarray(v) for t, v in x.data.items()})
+            import jax
+
+            # a wrapper may legitimately run its group passes under vmap / jit: then the inner model sees tracers, which are
+            # recorded as such (the per-call input checks below need concrete inputs; the deciding relation does not)
+            traced = any(isinstance(v, jax.core.Tracer) for v in x.data.values())
+            record.append({"traced": True, "is_torus": tuple(x.is_torus)} if traced else {**{t: np.asarray(v) for t, v in x.data.items()}, "is_torus": tuple(x.is_torus)})
             gain = 1.0
             if aux_data is not None:
                 # a stateful inner model: reads its carried state and updates it from the input (invariantly, so that the
                 # state itself is a legitimate invariant quantity); every group pass must see the SAME incoming state
                 gain = aux_data["gain"]
-                aux_seen.append(float(gain))
+                aux_seen.append(None if isinstance(gain, jax.core.Tracer) else float(gain))
                 aux_data = {"gain": gain * 0.5 + 0.25 * sum(jnp.mean(v**2) for v in x.data.values())}
             sp = x.get_spatial_dims()
             rows = []
@@ -89,7 +95,9 @@ def make_inner(rng, D, in_sig, out_sig, record, claims_equivariant=False):
                 rows.append(jnp.moveaxis(v.reshape((v.shape[0],) + tuple(sp) + (-1,)), -1, 1).reshape((-1,) + tuple(sp)))
             flat = jnp.concatenate(rows, axis=0)  # (C, spatial)
             grids = jnp.meshgrid(*[jnp.arange(n, dtype=jnp.float32) for n in sp], indexing="ij")
-            pos = sum(float(c) * g for c, g in zip(coef, grids)) / 3.0
+            # the map also depends on the per-axis boundary flags of the object it is handed (as a convolutional inner model
+            # does): each transformed copy g.x must arrive with its flags carried along with its axes
+            pos = sum(float(c) * (1.0 + 0.7 * float(bool(fl))) * g for c, fl, g in zip(coef, x.is_torus, grids)) / 3.0
             out = {}
             for t, c in out_sig:
                 h = gain * jnp.tanh(jnp.einsum("oc,c...->o...", Ws[t], flat) * 0.3 + pos) * (1.0 + pos**2)
@@ -147,7 +155,7 @@ def run_ga(case, ctx):
         del aux_seen[:]
         y = ga(x, aux0)[0]
         evals += 1
-        if aux0 is not None and on and len(set(aux_seen)) > 1:
+        if aux0 is not None and on and None not in aux_seen and len(set(aux_seen)) > 1:
             viols.append(viol("group-average-state-leaks-between-passes", f"the group passes of one call saw different incoming states {aux_seen[:6]} (each term of the average must be computed by the same function); {key}"))
         seen_inputs = list(record)
         Y = probes.blocks(y)
@@ -160,7 +168,9 @@ def run_ga(case, ctx):
         else:
             # inner model called exactly |G| times, once per g.x
             X = probes.blocks(x)
-            if len(seen_inputs) != len(Gp):
+            if any(r.get("traced") for r in seen_inputs):
+                traced_calls[0] += 1  # group passes run under a trace: only the relation below decides
+            elif len(seen_inputs) != len(Gp):
                 viols.append(viol("group-average-call-count", f"inner model invoked {len(seen_inputs)} times for |G|={len(Gp)}; {key}"))
             else:
                 unmatched = list(range(len(Gp)))
@@ -168,11 +178,11 @@ def run_ga(case, ctx):
                     hit = None
                     for j in unmatched:
                         want = mlgen.act_blocks(X, D, Gp[j], 1)
-                        if all(rec[t].shape == want[t].shape and np.allclose(rec[t], want[t], atol=1e-5) for t in want):
+                        if all(rec[t].shape == want[t].shape and np.allclose(rec[t], want[t], atol=1e-5) for t in want) and rec["is_torus"] == rgroup.transport(Gp[j], torus):
                             hit = j
                             break
                     if hit is None:
-                        viols.append(viol("group-average-inner-input", f"an inner-model input is not g.x for any remaining g in G; {key}"))
+                        viols.append(viol("group-average-inner-input", f"an inner-model input is not g.x (values and per-axis flags) for any remaining g in G; {key}"))
                         break
                     unmatched.remove(hit)
             S = mlgen.trace_scale(x, y)
